@@ -2,6 +2,7 @@ import DimodProofs.SymTree
 import DimodProofs.SymInfo
 import DimodProofs.SymStore
 import DimodProofs.SymStoreMore
+import DimodProofs.SymCmp
 
 /-! # C06 — symbolic arithmetic on models is pointwise arithmetic on energies
 
@@ -204,5 +205,151 @@ example : (match build (.add (.var .binary (.str "i") 1 none none) (.var .intege
 example :
     (match build (.pow (.add (.var .integer (.str "i") 1 (some 0) none) (.const 1)) 2) with
      | .ok v => v.eval (fun _ => 3) | .error _ => (0 : Rat)) = (16 : Rat) := by decide +kernel
+
+
+/-! ## round 7: one theorem per operator dispatch path, two-operand comparisons, stored constraints,
+       operands of rejected operators (`DimodModel/SymCmp.lean`, `DimodProofs/SymCmp.lean`) -/
+
+/-- **`+` on two models, every dispatch path** (`BQM.__add__(BQM)` same vartype → `copy().update`; different vartypes →
+    `from_bqm(self) += from_bqm(other)`; `BQM.__add__(QM)` → `from_bqm(self) + other`; `BQM.__radd__(QM)` →
+    `other.copy() += from_bqm(self)`; `QM.__add__(QM)`): whenever the operator returns, the result's energy is the sum of the
+    operands' energies at EVERY sample (no domain hypothesis), and the result is a QuadraticModel exactly when one operand
+    is one or the two BQMs differ in vartype with a non-empty right operand. -/
+theorem add_dispatch_eval (a b m : Model) (x : Label → Rat) (h : mAdd a b = .ok m) :
+    m.eval x = a.eval x + b.eval x ∧ m.isQM = (a.isQM || b.isQM || bqmDiffer a b) :=
+  ⟨mAdd_eval a b m x h, mAdd_class a b m h⟩
+
+/-- **`-` on two models, every dispatch path** (`__sub__`, `__rsub__`, the promoting forms): energies subtract at every
+    sample; same class rule as `+` -/
+theorem sub_dispatch_eval (a b m : Model) (x : Label → Rat) (h : mSub a b = .ok m) :
+    m.eval x = a.eval x - b.eval x ∧ m.isQM = (a.isQM || b.isQM || bqmDiffer a b) :=
+  mSub_eval_class a b m x h
+
+/-- **model with a number, every form** (`m + q`, `q + m` (`__radd__`), `m - q`, `q - m` (`__rsub__`), `m * q`, `q * m`
+    (`__rmul__`), `-m`, `m / q`): a model of the same class whose energy is that arithmetic at every sample; `m / 0`
+    raises ZeroDivisionError -/
+theorem number_dispatch_eval (m : Model) (q : Rat) (x : Label → Rat) :
+    (∃ r, valAdd (.mdl m) (.num q) = .ok (.mdl r) ∧ r.eval x = m.eval x + q ∧ r.isQM = m.isQM ∧ r.bvt = m.bvt) ∧
+    (∃ r, valAdd (.num q) (.mdl m) = .ok (.mdl r) ∧ r.eval x = q + m.eval x ∧ r.isQM = m.isQM ∧ r.bvt = m.bvt) ∧
+    (∃ r, valSub (.mdl m) (.num q) = .ok (.mdl r) ∧ r.eval x = m.eval x - q ∧ r.isQM = m.isQM ∧ r.bvt = m.bvt) ∧
+    (∃ r, valSub (.num q) (.mdl m) = .ok (.mdl r) ∧ r.eval x = q - m.eval x ∧ r.isQM = m.isQM ∧ r.bvt = m.bvt) ∧
+    (∃ r, valMul (.mdl m) (.num q) = .ok (.mdl r) ∧ r.eval x = m.eval x * q ∧ r.isQM = m.isQM ∧ r.bvt = m.bvt) ∧
+    (∃ r, valMul (.num q) (.mdl m) = .ok (.mdl r) ∧ r.eval x = q * m.eval x ∧ r.isQM = m.isQM ∧ r.bvt = m.bvt) ∧
+    (∃ r, valNeg (.mdl m) = .ok (.mdl r) ∧ r.eval x = - m.eval x ∧ r.isQM = m.isQM ∧ r.bvt = m.bvt) ∧
+    (q ≠ 0 → ∃ r, valDiv (.mdl m) q = .ok (.mdl r) ∧ r.eval x = m.eval x / q ∧ r.isQM = m.isQM ∧ r.bvt = m.bvt) ∧
+    valDiv (.mdl m) 0 = .error .zerodiv := by
+  refine ⟨⟨m.addOffset q, rfl, eval_addOffset m q x, rfl, rfl⟩,
+          ⟨m.addOffset q, rfl, by rw [eval_addOffset]; ring, rfl, rfl⟩,
+          ⟨m.addOffset (-q), rfl, by rw [eval_addOffset]; ring, rfl, rfl⟩,
+          ⟨(m.scale (-1)).addOffset q, rfl, by rw [eval_addOffset, eval_scale]; ring, rfl, rfl⟩,
+          ⟨m.scale q, rfl, by rw [eval_scale]; ring, rfl, rfl⟩,
+          ⟨m.scale q, rfl, eval_scale m q x, rfl, rfl⟩,
+          ⟨m.scale (-1), rfl, by rw [eval_scale]; ring, rfl, rfl⟩,
+          fun hq => ⟨m.scale (1 / q), by simp [valDiv, hq], by rw [eval_scale]; ring, rfl, rfl⟩,
+          by simp [valDiv]⟩
+
+/-- **the repeated-label cases of the product loops** (`u == v` in `QuadraticModel.__mul__` / `BinaryQuadraticModel.__mul__`):
+    a BINARY label contributes to the LINEAR bias (`x*x = x`), a SPIN label to the OFFSET (`s*s = 1`), an INTEGER or REAL
+    label gets a SELF-LOOP (a true square; for REAL `add_quadratic` then raises) -/
+theorem square_dispatch (u v : Var) (acc : Model) (h : u.l = v.l) :
+    (u.info.vt = .binary → qmMulStep u v acc = addLinear acc u.l (u.bias * v.bias)) ∧
+    (u.info.vt = .spin → qmMulStep u v acc = .ok (acc.addOffset (u.bias * v.bias))) ∧
+    (u.info.vt = .integer ∨ u.info.vt = .real → qmMulStep u v acc = addQuadratic acc u.l u.l (u.bias * v.bias)) ∧
+    bqmMulStep .binary u v acc = addLinear acc u.l (u.bias * v.bias) ∧
+    bqmMulStep .spin u v acc = .ok (acc.addOffset (u.bias * v.bias)) := by
+  refine ⟨fun hk => by simp [qmMulStep, h, hk], fun hk => by simp [qmMulStep, h, hk],
+          fun hk => by rcases hk with hk | hk <;> simp [qmMulStep, h, hk], by simp [bqmMulStep, h], by simp [bqmMulStep, h]⟩
+
+/-- … and the self-loop is a true square in the energy, the linear/offset forms are `b·x` / `b` -/
+theorem square_dispatch_eval (acc acc' : Model) (l : Label) (b : Rat) (x : Label → Rat) :
+    (addQuadratic acc l l b = .ok acc' → acc'.eval x = acc.eval x + b * x l * x l) ∧
+    (addLinear acc l b = .ok acc' → acc'.eval x = acc.eval x + b * x l) ∧
+    (acc.addOffset b).eval x = acc.eval x + b :=
+  ⟨eval_addQuadratic acc acc' l l b x, eval_addLinear acc acc' l b x, eval_addOffset acc b x⟩
+
+/-- **comparison of two arbitrary operands** `a ⋈ b` (`__le__`, `__ge__`, `__eq__` and Python's reflection): whenever a
+    `Comparison` object comes out, then at every sample respecting the leaves' domains EITHER its sense is the written one and
+    its activity `lhs(x) − rhs` is `a(x) − b(x)`, OR (reflected: the number was on the left) its sense is the flipped one and
+    its activity is `b(x) − a(x)`; in both cases it holds exactly when the written comparison holds between the energies. -/
+theorem comparison_two_operands (s : Sense) (a b : SymExpr) (k : Cmp) (x : Label → Rat) (h : buildCmp2 s a b = .ok (some k))
+    (hxa : ∀ l kd, a.HasLeaf l kd → InDom kd (x l)) (hxb : ∀ l kd, b.HasLeaf l kd → InDom kd (x l)) :
+    ((k.sense = s ∧ k.lhs.eval x - k.rhs = a.eval x - b.eval x) ∨
+     (k.sense = s.flip ∧ k.lhs.eval x - k.rhs = -(a.eval x - b.eval x))) ∧
+    (k.holds x ↔ s.rel (a.eval x) (b.eval x)) :=
+  buildCmp2_spec s a b k x h hxa hxb
+
+/-- non-vacuity of `comparison_two_operands`: `3 >= 2·x + 1` over a binary `x` is `Le(2x + 1, 3)` -/
+example :
+    (match buildCmp2 .ge (.const 3) (.add (.var .binary (.str "x") 2 none none) (.const 1)) with
+     | .ok (some k) => decide (k.sense = .le) && decide (k.rhs = 3) && decide (k.lhs.eval (fun _ => 1) = 3) | _ => false) = true := by
+  decide +kernel
+
+/-- **no terms are moved across**: with models (or expression views) on BOTH sides `<=`/`>=` raise TypeError and `==` is a
+    plain bool (`is_equal` / identity) — this version of dimod builds a `Comparison` only against a number -/
+theorem comparison_models_refused (s : Sense) (a b : SymExpr) (va vb : Val) (ha : build a = .ok va) (hb : build b = .ok vb)
+    (hna : ∀ q, va ≠ .num q) (hnb : ∀ q, vb ≠ .num q) :
+    buildCmp2 s a b = if s = .eq then .ok none else .error .type := by
+  simp only [buildCmp2, ha, hb]
+  exact cmpVals_refused s va vb hna hnb
+
+/-- non-vacuity: `Binary('x') <= Integer('i')` meets the hypotheses -/
+example : buildCmp2 .le (.var .binary (.str "x") 1 none none) (.var .integer (.str "i") 1 (some 0) (some 3)) = .error .type := by
+  apply comparison_models_refused .le _ _ _ _ rfl rfl <;> intro q hq <;> cases hq
+
+/-- the two-operand comparison extends the six number forms of `buildCmp` -/
+theorem comparison2_extends (e : SymExpr) (q : Rat) :
+    buildCmp (.le e q) = buildCmp2 .le e (.const q) ∧ buildCmp (.ge e q) = buildCmp2 .ge e (.const q) ∧
+    buildCmp (.eq e q) = buildCmp2 .eq e (.const q) ∧ buildCmp (.rle q e) = buildCmp2 .le (.const q) e ∧
+    buildCmp (.rge q e) = buildCmp2 .ge (.const q) e ∧ buildCmp (.req q e) = buildCmp2 .eq (.const q) e := by
+  refine ⟨?_, ?_, ?_, ?_, ?_, ?_⟩ <;>
+    (simp only [buildCmp, buildCmp2, build, SymCmp.expr, SymCmp.num, SymCmp.sense, SymCmp.isEq]
+     cases build e with
+     | error _ => rfl
+     | ok v => cases v <;> rfl)
+
+/-- **the constraint a CQM stores for a comparison** (`add_constraint(comp)` → `add_constraint_from_model(comp.lhs,
+    comp.sense, rhs=comp.rhs, copy=True)`): its activity at every sample is `lhs(x) − rhs` of the comparison (the offset
+    stays on the left), sense, right-hand side and variables (with types and bounds) are preserved, and it is satisfied
+    exactly when the comparison holds -/
+theorem constraint_from_comparison (k : Cmp) (x : Label → Rat) :
+    (conOfCmp k).activity x = k.lhs.eval x - k.rhs ∧ (conOfCmp k).sense = k.sense ∧ (conOfCmp k).rhs = k.rhs ∧
+    (conOfCmp k).lhs.vars = k.lhs.vars ∧ ((conOfCmp k).holds x ↔ k.holds x) := by
+  refine ⟨rfl, rfl, rfl, rfl, ?_⟩
+  obtain ⟨l, s, r⟩ := k
+  cases s <;> exact Iff.rfl
+
+/-- **comparisons leave their operands unchanged**: building the `Comparison` mutates nothing, adding it to a CQM
+    allocates the copy -/
+theorem comparison_operands_unchanged (h h' : Store) (a : Nat) (p : List Instr)
+    (hp : p = progCompare ∨ p = progAddConstraint a) (he : exec h p = .ok h') :
+    ∀ j, j < h.length → h'[j]? = h[j]? := by
+  rcases hp with rfl | rfl
+  · exact exec_frame _ h h' h.length (Nat.le_refl _) (compare_writes_fresh a h.length).1 he
+  · exact exec_frame _ h h' h.length (Nat.le_refl _) (compare_writes_fresh a h.length).2 he
+
+/-- **operands_unchanged, also when the operator is REJECTED**: run the body of any non-in-place operator (all of
+    `operands_unchanged` and `operands_unchanged_more`, and the comparison forms) in any store; whether it returns or raises
+    half-way (conflicting vartype/bounds for one label in `update`, a product of non-linear models, …), every object that
+    existed before the call — both operands — is exactly as it was at the moment the call ends; `execT` is `exec` with the
+    store at the moment of the exception kept. -/
+theorem operands_unchanged_when_rejected (h : Store) (a b : Nat) (rest : List Nat) (q : Rat) (p : List Instr)
+    (hp : p ∈ nonInplacePrograms a b q h.length ∨ p ∈ moreNonInplacePrograms a b rest q h.length ∨
+          p = progCompare ∨ p = progAddConstraint a) :
+    (∀ j, j < h.length → (execT h p).1[j]? = h[j]?) ∧
+    exec h p = (match (execT h p).2 with | none => .ok (execT h p).1 | some e => .error e) := by
+  refine ⟨?_, execT_exec p h⟩
+  have hw : WritesFresh h.length p = true := by
+    rcases hp with hp | hp | rfl | rfl
+    · exact nonInplace_writes_fresh a b q h.length p hp
+    · exact more_write_fresh a b rest q h.length p hp
+    · exact (compare_writes_fresh a h.length).1
+    · exact (compare_writes_fresh a h.length).2
+  exact execT_frame p h h.length (Nat.le_refl _) hw
+
+/-- non-vacuity: `Integer('i', upper_bound=5) - Integer('i', upper_bound=7)` (program `progSubSame`) is rejected with
+    ValueError after the copy was negated — a case where `operands_unchanged` says nothing and this theorem does -/
+example :
+    (execT [⟨true, .binary, [⟨.str "i", ⟨.integer, 0, 5⟩, 1⟩], [], 0⟩, ⟨true, .binary, [⟨.str "i", ⟨.integer, 0, 7⟩, 1⟩], [], 0⟩]
+       (progSubSame 0 1 2)).2 = some .value := by decide +kernel
 
 end C06
